@@ -12,15 +12,17 @@ WHAT IS NOT CLAIMED: that the enabled step is ever taken, that a particular call
 with Pub / PubSlice is ever delivered — those are liveness properties (fair scheduling), not expressible in this
 framework.
 
-DEFINITION PROBLEM FOUND (reported, not patched; see `no_deadlock_as_first_stated_is_false`): the statement without
-the hypothesis `FreshSubNames` is FALSE of the model.  Channel names are chosen by the harness; `envStep (.sub c _)`
-refuses a name only if a channel `c` EXISTS at invocation time, so two `sub c` invocations may both be pending; the
-first creates `c`, and `stepSubWait` of the second is then disabled for ever (`hasChan s.chans c`) while it stays
-counted in `rw.waiting` — every later reader is kept out too.  The Go code has no such state (`Sub` makes a fresh
-channel); it is an artefact of naming.  `FreshSubNames s` excludes exactly this; it can only be broken by the
-environment issuing `sub c` / `mkchan c` with a name that is pending (`names_distinct_step`), and
-`no_deadlock_fresh_run_partial` is the theorem without any hypothesis of that kind on the state: it quantifies over
-the runs in which the harness does not do that (`FreshRun`).
+DEFINITION PROBLEM FOUND AND REPAIRED IN THE MODEL.  Channel names are chosen by the harness.  `envStep (.sub c _)` used
+to refuse a name only if a channel `c` EXISTED at invocation time, so two `sub c` invocations could both be pending;
+the first created `c`, and `stepSubWait` of the second was then disabled for ever (`hasChan s.chans c`) while it stayed
+counted in `rw.waiting` — every later reader was kept out too, and `no_deadlock` needed the extra hypothesis
+`FreshSubNames s`.  The Go code has no such state (`Sub` makes a fresh channel) and the harness never reuses a name; it
+was an artefact of naming.  `envStep` now refuses `sub c` / `mkchan c` also while a `Sub` carrying the name `c` is
+pending (`nameTaken`); names are therefore pairwise distinct in EVERY reachable state (`fresh_names_invariant`, any
+configuration), `no_deadlock_partial` holds without any naming hypothesis, the state that refuted the first statement is
+unreachable (`former_stuck_state_unreachable`) and the path that led to it is no longer a path of the model (the
+`example` after it).  The versions with a naming hypothesis on the run (`FreshRun`, `no_deadlock_fresh_run_partial`)
+are kept as corollaries; they are subsumed by `no_deadlock_partial`.
 -/
 namespace C10
 open TypVerif TypVerif.Model.PubSub TypVerif.Lemmas.PubSubExec TypVerif.Lemmas.PubSubSafe TypVerif.Lemmas.PubSubLive
@@ -42,10 +44,36 @@ def stuckSub (s : State) : Task → Bool
   | .subWait _ c _ => hasChan s.chans c
   | _ => false
 
-/-- harness naming discipline: no pending `Sub` carries the name of an existing channel -/
+/-- naming discipline: no pending `Sub` carries the name of an existing channel -/
 def FreshSubNames (s : State) : Prop := ∀ t ∈ s.tasks, stuckSub s t = false
 
 instance (s : State) : Decidable (FreshSubNames s) := by unfold FreshSubNames; infer_instance
+
+/-- The model refuses an invocation `sub c` / `mkchan c` whose name is in use — as an existing channel or (new) as the
+name carried by a pending `Sub` — in any state whatsoever. -/
+theorem sub_refused_while_name_taken (cfg : Cfg) (s : State) (c : Chan) (cap : Int)
+    (h : hasChan s.chans c = true ∨ ∃ t ∈ s.tasks, subName c t = true) :
+    envStep cfg s (.sub c cap) = none ∧ envStep cfg s (.mkchan c) = none := by
+  have ht : nameTaken s c = true := by
+    simp only [nameTaken, Bool.or_eq_true, List.any_eq_true]
+    exact h
+  simp [envStep, ht]
+
+/-- Name freshness is an invariant of the model: in every reachable state — any configuration, with or without clones,
+all schedules — channel names are pairwise distinct (`NamesOk`: for every name, the pending `Sub`s carrying it plus the
+existing channels with that id are at most one), hence no pending `Sub` carries the name of an existing channel. -/
+theorem fresh_names_invariant (cfg : Cfg) (s : State) (hr : Conc.Reachable (sys cfg) s) :
+    NamesOk s ∧ FreshSubNames s := by
+  have h := namesOk_reachable cfg s hr
+  refine ⟨h, fun t ht => ?_⟩
+  cases t with
+  | subWait o c cap => exact fresh_of_namesOk h o c cap ht
+  | _ => rfl
+
+/-- the same under `CloneDiscipline` (the form in which the deadlock theorems use it) -/
+theorem fresh_names_invariant_partial (cfg : Cfg) (_hd : CloneDiscipline cfg) (s : State)
+    (hr : Conc.Reachable (sys cfg) s) : NamesOk s ∧ FreshSubNames s :=
+  fresh_names_invariant cfg s hr
 
 /-- The additional invariant of every reachable state (under `CloneDiscipline`) that the deadlock proof needs:
 `rdone → closed` (through the channel id: the id of a receiver that observed the close is closed), the RWMutex is never
@@ -68,8 +96,9 @@ channels are being received from, a goroutine `t ≠ done` without an enabled st
 (c) it is about to `RLock` (`pubStart` / `asyncStart`) and is kept out by a goroutine waiting in `Lock()` (writer
     preference; the mutex itself is not write-locked);
 (d) it waits in `Lock()` (`subWait` / `unsubWait` / `uaWait`) and is kept out by a goroutine inside a read-locked
-    region (`syncLoop` / `waitWg` / `asyncSend`);
-(e) it is a `Sub` in `Lock()` whose harness-chosen channel name already exists (naming artefact, see the header).
+    region (`syncLoop` / `waitWg` / `asyncSend`).
+(The former alternative (e), a `Sub` in `Lock()` whose harness-chosen channel name already exists, cannot occur any more:
+`fresh_names_invariant`.)
 Not claimed: that the blocking goroutine itself can step (that is the chain in `no_deadlock_partial`). -/
 theorem blocked_reason_partial (cfg : Cfg) (hd : CloneDiscipline cfg) (s : State) (hr : Conc.Reachable (sys cfg) s)
     (_hx : s.exited = false) (hrecv : ReceivingSubscribed s) (i : Nat) (t : Task)
@@ -81,20 +110,28 @@ theorem blocked_reason_partial (cfg : Cfg) (hd : CloneDiscipline cfg) (s : State
         ∃ (j : Nat) (t' : Task), s.tasks[j]? = some t' ∧ isWgSend w t' = true) ∨
     (isReaderStart t = true ∧ (s.obj 0).rw.writer = false ∧
         ∃ (j : Nat) (t' : Task), s.tasks[j]? = some t' ∧ isWaiter t' = true) ∨
-    (isWaiter t = true ∧ ∃ (j : Nat) (t' : Task), s.tasks[j]? = some t' ∧ holdsRead t' = true) ∨
-    (∃ o c cap, t = .subWait o c cap ∧ hasChan s.chans c = true) :=
-  blocked_reason (no_panic_noClone cfg hd s hr) (live_reachable cfg hd s hr) hrecv ht hne hblk
+    (isWaiter t = true ∧ ∃ (j : Nat) (t' : Task), s.tasks[j]? = some t' ∧ holdsRead t' = true) := by
+  rcases blocked_reason (no_panic_noClone cfg hd s hr) (live_reachable cfg hd s hr) hrecv ht hne hblk
+    with h | h | h | h | h
+  · exact Or.inl h
+  · exact Or.inr (Or.inl h)
+  · exact Or.inr (Or.inr (Or.inl h))
+  · exact Or.inr (Or.inr (Or.inr h))
+  · obtain ⟨o, c, cap, rfl, hc⟩ := h
+    have := fresh_of_namesOk (namesOk_reachable cfg s hr) o c cap (List.mem_of_getElem? ht)
+    rw [this] at hc; cases hc
 
 /-- Deadlock freedom while the subscribers keep receiving.  In every reachable state (under `CloneDiscipline`, any
 interleaving of Pub*/Sub/Unsub/UnsubAll calls, any variants, any buffers, with or without timeout) in which every
-receiver that has not seen its channel closed is willing to take a value and no pending `Sub` is stuck on a taken
-channel name: as long as some goroutine of the PubSub has not finished, SOME step of a PubSub goroutine or of a receiver
-is enabled.  Proof: `blocked_reason_partial` and the well-founded chain
+receiver that has not seen its channel closed is willing to take a value: as long as some goroutine of the PubSub has
+not finished, SOME step of a PubSub goroutine or of a receiver is enabled.  No hypothesis on channel names: the model
+keeps them distinct (`fresh_names_invariant`).  Proof: `blocked_reason_partial` and the well-founded chain
 writer ← reader-holder ← (sender | waitWg ← wgSend sender) ← receiver.
-Not claimed: that the step is taken (fairness), nor anything without `FreshSubNames` (false, see below). -/
+Not claimed: that the step is taken (fairness). -/
 theorem no_deadlock_partial (cfg : Cfg) (hd : CloneDiscipline cfg) (s : State) (hr : Conc.Reachable (sys cfg) s)
-    (_hx : s.exited = false) (hrecv : Receiving s) (hfresh : FreshSubNames s) (hwork : ∃ t ∈ s.tasks, t ≠ .done) :
+    (_hx : s.exited = false) (hrecv : Receiving s) (hwork : ∃ t ∈ s.tasks, t ≠ .done) :
     (∃ i, taskSteps cfg s i ≠ []) ∨ (∃ ch ∈ s.chans, recvSteps s ch ≠ []) := by
+  have hfresh := (fresh_names_invariant cfg s hr).2
   apply Classical.byContradiction
   intro hcon
   have hT : ∀ i, taskSteps cfg s i = [] := by
@@ -113,10 +150,11 @@ theorem no_deadlock_partial (cfg : Cfg) (hd : CloneDiscipline cfg) (s : State) (
 transition system: a successor of `s` that is a PubSub-goroutine step or a receiver step EXISTS, i.e. the harness
 verdict `exit "deadlock"` is never the only way on. -/
 theorem no_deadlock_succ_partial (cfg : Cfg) (hd : CloneDiscipline cfg) (s : State) (hr : Conc.Reachable (sys cfg) s)
-    (hx : s.exited = false) (hrecv : ReceivingSubscribed s) (hfresh : FreshSubNames s)
+    (hx : s.exited = false) (hrecv : ReceivingSubscribed s)
     (hwork : ∃ t ∈ s.tasks, t ≠ .done) :
     ∃ p ∈ (sys cfg).succ s, (∃ i, p ∈ taskSteps cfg s i) ∨ (∃ ch ∈ s.chans, p ∈ recvSteps s ch) := by
   have hs := no_panic_noClone cfg hd s hr
+  have hfresh := (fresh_names_invariant cfg s hr).2
   have key : (∃ i, taskSteps cfg s i ≠ []) ∨ (∃ ch ∈ s.chans, recvSteps s ch ≠ []) := by
     apply Classical.byContradiction
     intro hcon
@@ -157,7 +195,7 @@ def lvCfg : Cfg :=
     env := [.sub 0 1, .allow 0 5, .pubinv 0 0 .pubSync [7, 8], .unsubinv 0 0 0, .pubinv 1 0 .pub [9]] }
 
 /-- sub 0 (buffer 1) returned; allow 0 5; PubSync [7, 8] handed off 7 into the buffer -/
-def lvPath1 : List Nat := [0, 4, 4, 4, 0, 1, 3, 3]
+def lvPath1 : List Nat := [0, 3, 3, 4, 0, 1, 3, 3]
 /-- … then Unsub(0) called and waiting in Lock(), then Pub [9] invoked -/
 def lvPath2 : List Nat := lvPath1 ++ [1, 3, 2]
 
@@ -176,13 +214,12 @@ example : ∃ it, sending (.syncLoop 0 0 [{ pid := 0, idx := 1, ev := 8, c := 0 
     sendTo (liveAt lvCfg lvPath1) it = .blocked ∧
     ∃ ch ∈ (liveAt lvCfg lvPath1).chans, ch.id = it.c ∧ recvSteps (liveAt lvCfg lvPath1) ch ≠ [] := by
   rcases blocked_reason_partial lvCfg rfl (liveAt lvCfg lvPath1) (liveAt_reachable _ _ (by decide)) (by decide)
-    (Receiving.subscribed (by decide)) 1 (.syncLoop 0 0 [{ pid := 0, idx := 1, ev := 8, c := 0 }] false) (by decide) (by decide) (by decide) with h | h | h | h | h
+    (Receiving.subscribed (by decide)) 1 (.syncLoop 0 0 [{ pid := 0, idx := 1, ev := 8, c := 0 }] false) (by decide) (by decide) (by decide) with h | h | h | h
   · obtain ⟨it, h1, _, h2, ch, hm, hid, _, _, _, _, hstep⟩ := h
     exact ⟨it, h1, h2, ch, hm, hid, hstep⟩
   · obtain ⟨w, hw, _⟩ := h; simp [isWaitWg] at hw
   · simp [isReaderStart] at h
   · simp [isWaiter] at h
-  · obtain ⟨_, _, _, h, _⟩ := h; cases h
 
 /-- (2) a reachable state with a waiting writer (Unsub in Lock(), kept out by the PubSync loop that holds the read
 lock) and a blocked new reader (Pub kept out by the waiting writer: writer preference): none of the three goroutines
@@ -199,12 +236,12 @@ example : Conc.Reachable (sys lvCfg) (liveAt lvCfg lvPath2) ∧
 /-- … and the theorem applies to it -/
 example : (∃ i, taskSteps lvCfg (liveAt lvCfg lvPath2) i ≠ []) ∨
     (∃ ch ∈ (liveAt lvCfg lvPath2).chans, recvSteps (liveAt lvCfg lvPath2) ch ≠ []) :=
-  no_deadlock_partial lvCfg rfl _ (liveAt_reachable _ _ (by decide)) (by decide) (by decide) (by decide) (by decide)
+  no_deadlock_partial lvCfg rfl _ (liveAt_reachable _ _ (by decide)) (by decide) (by decide) (by decide)
 
 /-- `Receiving` is needed: an unbuffered subscriber whose receiver is never allowed to take a value, a PubSync of one
 event -/
 def lvDeadCfg : Cfg := { allowClone := false, env := [.sub 0 0, .pubinv 0 0 .pubSync [7]] }
-def lvDeadPath : List Nat := [0, 2, 2, 1, 0, 0]
+def lvDeadPath : List Nat := [0, 1, 1, 1, 0, 0]
 
 /-- (3) a reachable state (all other hypotheses hold) with `allow = 0` on the channel and a blocked PubSync in which NO
 task step and NO receiver step is enabled: only `exit` is left to the system -/
@@ -221,44 +258,61 @@ example : Conc.Reachable (sys lvDeadCfg) (liveAt lvDeadCfg lvDeadPath) ∧ Clone
   ⟨liveAt_reachable _ _ (by decide), rfl, by decide, by decide, by decide, by decide, by decide, by decide, by decide,
    by decide⟩
 
-/-- `FreshSubNames` is needed — the statement first asked for (without it) is false of the model: two `sub 0`
-invocations pending at the same time; the first creates channel 0 and returns, the second waits in `Lock()` for ever
-(its step is disabled because the name exists), the receiver of channel 0 is willing but has nothing to take. -/
+/-! ### the former counterexample -/
+
+/-- The state that refuted `no_deadlock` as first stated (when the model still accepted a second `sub 0` while the first
+was pending): two `sub 0 1` invocations pending at the same time; the first created channel 0 and returned, the second
+waits in `Lock()` for ever (its step is disabled because the name exists) and is counted in `rw.waiting`; the receiver
+of channel 0 is willing but has nothing to take. -/
+def lvStuckState : State :=
+  { objs := [{ subs := [0], rw := { waiting := 1 } }], chans := [{ id := 0, cap := 1, allow := 1 }],
+    tasks := [.done, .subWait 0 0 1] }
+
+/-- it is a deadlock: every hypothesis of `no_deadlock_partial` other than reachability holds, and nothing can step -/
+example : lvStuckState.exited = false ∧ lvStuckState.panicked = none ∧ Receiving lvStuckState ∧
+    (∃ t ∈ lvStuckState.tasks, t ≠ .done) ∧ ¬ FreshSubNames lvStuckState ∧
+    (∀ cfg : Cfg, (List.range lvStuckState.tasks.length).flatMap (taskSteps cfg lvStuckState) = []) ∧
+    lvStuckState.chans.flatMap (recvSteps lvStuckState) = [] :=
+  ⟨by decide, by decide, by decide, by decide, by decide, fun _ => rfl, by decide⟩
+
+/-- … and it is unreachable now, whatever the configuration and the schedule (the name 0 is in use twice) -/
+theorem former_stuck_state_unreachable (cfg : Cfg) : ¬ Conc.Reachable (sys cfg) lvStuckState := by
+  intro hr
+  have h := (fresh_names_invariant cfg lvStuckState hr).2
+  revert h
+  decide
+
 def lvStuckCfg : Cfg := { allowClone := false, env := [.sub 0 1, .allow 0 1] }
+/-- the path that used to lead to `lvStuckState`: `sub 0 1`, `sub 0 1` again, first Sub announces, creates channel 0,
+`allow 0 1`, `subret 0`, second Sub announces -/
 def lvStuckPath : List Nat := [0, 0, 1, 1, 0, 1, 1]
 
-theorem no_deadlock_as_first_stated_is_false :
-    ¬ (∀ (cfg : Cfg) (_ : CloneDiscipline cfg) (s : State) (_ : Conc.Reachable (sys cfg) s)
-        (_ : s.exited = false) (_ : Receiving s) (_ : ∃ t ∈ s.tasks, t ≠ .done),
-        (∃ i, taskSteps cfg s i ≠ []) ∨ (∃ ch ∈ s.chans, recvSteps s ch ≠ [])) := by
-  intro h
-  have hT : (List.range (liveAt lvStuckCfg lvStuckPath).tasks.length).flatMap
-      (taskSteps lvStuckCfg (liveAt lvStuckCfg lvStuckPath)) = [] := by decide
-  have hR : (liveAt lvStuckCfg lvStuckPath).chans.flatMap (recvSteps (liveAt lvStuckCfg lvStuckPath)) = [] := by
-    decide
-  rcases h lvStuckCfg rfl (liveAt lvStuckCfg lvStuckPath) (liveAt_reachable _ _ (by decide)) (by decide) (by decide)
-    (by decide) with ⟨i, hi⟩ | ⟨ch, hm, hc⟩
-  · exact hi (taskSteps_all_nil_iff.mp hT i)
-  · exact hc (recvSteps_all_nil_iff.mp hR ch hm)
-
-/-- the stuck state itself -/
-example : (liveAt lvStuckCfg lvStuckPath).tasks = [.done, .subWait 0 0 1] ∧
-    (liveAt lvStuckCfg lvStuckPath).chans = [{ id := 0, cap := 1, allow := 1 }] ∧
-    ((liveAt lvStuckCfg lvStuckPath).obj 0).rw = { readers := 0, writer := false, waiting := 1 } ∧
-    ¬ FreshSubNames (liveAt lvStuckCfg lvStuckPath) := by decide
+/-- The formerly stuck path is no longer a path of the model: after the first `sub 0 1` (state `liveAt lvStuckCfg [0]`,
+the Sub pending) the second `sub 0 1` is REFUSED — `envStep` gives `none`, the environment has no move at all (so the
+index 0 of the old path now denotes the Sub's own step), no successor carries the label `sub 0 1`; it stays refused
+while the Sub waits in `Lock()` and after the channel exists, i.e. for ever; the old index path, if followed, now reads
+"`sub 0 1`, the Sub announces itself, the harness exits" and stops there (no successor after `exit`). -/
+example : (liveAt lvStuckCfg [0]).tasks = [.subStart 0 0 1] ∧
+    envStep lvStuckCfg (liveAt lvStuckCfg [0]) (.sub 0 1) = none ∧
+    envSteps lvStuckCfg (liveAt lvStuckCfg [0]) = [] ∧
+    (∀ p ∈ succ lvStuckCfg (liveAt lvStuckCfg [0]), p.1 ≠ some (.sub 0 1)) ∧
+    (liveAt lvStuckCfg [0, 0]).tasks = [.subWait 0 0 1] ∧
+    envStep lvStuckCfg (liveAt lvStuckCfg [0, 0]) (.sub 0 1) = none ∧
+    (liveAt lvStuckCfg [0, 0, 0]).tasks = [.subRet 0] ∧
+    envStep lvStuckCfg (liveAt lvStuckCfg [0, 0, 0]) (.sub 0 1) = none ∧
+    labelsPath lvStuckCfg {} lvStuckPath = [some (.sub 0 1), none, some (.exit "ok")] ∧
+    runPath lvStuckCfg {} lvStuckPath = none := by decide
 
 /-! ### the naming discipline as a property of the run -/
 
 /-- Channel names stay pairwise distinct (`NamesOk`: for every name, pending `Sub`s carrying it plus existing channels
-with that id ≤ 1) under EVERY step of the system — any configuration, with or without clones — except an invocation
-`sub c` / `mkchan c` whose name is carried by a pending `Sub`; and distinct names give `FreshSubNames`.  So only such
-an invocation by the harness can produce the stuck `Sub` of `no_deadlock_as_first_stated_is_false`. -/
+with that id ≤ 1) under EVERY step of the system — any configuration, with or without clones, from any state, reachable
+or not; and distinct names give `FreshSubNames`.  (Before the repair of `envStep` this needed the hypotheses that the
+step is not an invocation `sub c` / `mkchan c` whose name is carried by a pending `Sub`; the model now refuses those.) -/
 theorem names_distinct_step (cfg : Cfg) (s s' : State) (l : Option Event) (hok : NamesOk s)
-    (h : (l, s') ∈ (sys cfg).succ s)
-    (hsub : ∀ c cap, l = some (.sub c cap) → s.tasks.countP (subName c) = 0)
-    (hmk : ∀ c, l = some (.mkchan c) → s.tasks.countP (subName c) = 0) :
+    (h : (l, s') ∈ (sys cfg).succ s) :
     NamesOk s' ∧ FreshSubNames s' := by
-  have h' := namesOk_succ hok h hsub hmk
+  have h' := namesOk_succ hok h
   refine ⟨h', fun t ht => ?_⟩
   cases t with
   | subWait o c cap => exact fresh_of_namesOk h' o c cap ht
@@ -271,7 +325,9 @@ def freshLabel (s : State) : Option Event → Bool
   | _ => true
 
 /-- the states reached by runs in which the harness never invokes `sub c` / `mkchan c` while a `Sub` with the name `c`
-is pending (all schedules otherwise) -/
+is pending (all schedules otherwise).  Kept from the time when the model accepted such invocations; it now refuses
+them, so the restriction on the run excludes nothing that matters and everything below is subsumed by
+`no_deadlock_partial`. -/
 inductive FreshRun (cfg : Cfg) : State → Prop where
   | init : FreshRun cfg {}
   | step {s s' : State} {l : Option Event} : FreshRun cfg s → (l, s') ∈ (sys cfg).succ s → freshLabel s l = true →
@@ -285,23 +341,17 @@ theorem FreshRun.reachable {cfg : Cfg} {s : State} (h : FreshRun cfg s) : Conc.R
 theorem FreshRun.namesOk {cfg : Cfg} {s : State} (h : FreshRun cfg s) : NamesOk s := by
   induction h with
   | init => exact namesOk_init
-  | step _ hm hf ih =>
-    refine namesOk_succ ih hm (fun c cap hl => ?_) (fun c hl => ?_)
-    · subst hl; simpa [freshLabel] using hf
-    · subst hl; simpa [freshLabel] using hf
+  | step _ hm _ ih => exact namesOk_succ ih hm
 
 /-- Deadlock freedom while the subscribers keep receiving, with the naming discipline as a hypothesis on the RUN instead
 of on the state: in every state of every run (under `CloneDiscipline`) in which the harness does not reuse the name of
 a pending `Sub`, if every receiver that has not seen its channel closed is willing to take a value and some goroutine
 of the PubSub has not finished, a step of a PubSub goroutine or of a receiver is enabled.  Same non-claims as
-`no_deadlock_partial`. -/
+`no_deadlock_partial`, of which it is now a special case (`FreshRun.reachable`). -/
 theorem no_deadlock_fresh_run_partial (cfg : Cfg) (hd : CloneDiscipline cfg) (s : State) (hr : FreshRun cfg s)
     (hx : s.exited = false) (hrecv : Receiving s) (hwork : ∃ t ∈ s.tasks, t ≠ .done) :
-    (∃ i, taskSteps cfg s i ≠ []) ∨ (∃ ch ∈ s.chans, recvSteps s ch ≠ []) := by
-  refine no_deadlock_partial cfg hd s hr.reachable hx hrecv (fun t ht => ?_) hwork
-  cases t with
-  | subWait o c cap => exact fresh_of_namesOk hr.namesOk o c cap ht
-  | _ => rfl
+    (∃ i, taskSteps cfg s i ≠ []) ∨ (∃ ch ∈ s.chans, recvSteps s ch ≠ []) :=
+  no_deadlock_partial cfg hd s hr.reachable hx hrecv hwork
 
 /-- path checker for `FreshRun` -/
 def freshPath (cfg : Cfg) : State → List Nat → Bool
@@ -334,10 +384,9 @@ theorem liveAt_freshRun (cfg : Cfg) (path : List Nat) (h : (runPath cfg {} path)
     rw [this]
     exact freshRun_of_path cfg path {} s FreshRun.init hf hrun
 
-/-- non-vacuity: the states of examples (1) and (2) are reached by fresh runs, the stuck state is not -/
-example : FreshRun lvCfg (liveAt lvCfg lvPath1) ∧ FreshRun lvCfg (liveAt lvCfg lvPath2) ∧
-    freshPath lvStuckCfg {} lvStuckPath = false :=
-  ⟨liveAt_freshRun _ _ (by decide) (by decide), liveAt_freshRun _ _ (by decide) (by decide), by decide⟩
+/-- non-vacuity: the states of examples (1) and (2) are reached by fresh runs -/
+example : FreshRun lvCfg (liveAt lvCfg lvPath1) ∧ FreshRun lvCfg (liveAt lvCfg lvPath2) :=
+  ⟨liveAt_freshRun _ _ (by decide) (by decide), liveAt_freshRun _ _ (by decide) (by decide)⟩
 
 example : (∃ i, taskSteps lvCfg (liveAt lvCfg lvPath2) i ≠ []) ∨
     (∃ ch ∈ (liveAt lvCfg lvPath2).chans, recvSteps (liveAt lvCfg lvPath2) ch ≠ []) :=
@@ -350,7 +399,10 @@ end C10
 #print axioms C10.blocked_reason_partial
 #print axioms C10.no_deadlock_partial
 #print axioms C10.no_deadlock_succ_partial
-#print axioms C10.no_deadlock_as_first_stated_is_false
+#print axioms C10.sub_refused_while_name_taken
+#print axioms C10.fresh_names_invariant
+#print axioms C10.fresh_names_invariant_partial
+#print axioms C10.former_stuck_state_unreachable
 #print axioms C10.names_distinct_step
 #print axioms C10.no_deadlock_fresh_run_partial
 #print axioms C10.Receiving.subscribed
